@@ -1,5 +1,6 @@
 """C01 — bigWig write/read round trip is exact for every accepted input and option set."""
 from vlib import Prop, CaseT
+from wbprop import byte_level_check
 import bbgen
 
 
@@ -94,6 +95,9 @@ class C01(Prop):
                     return (f"full-span read of {q[2]} returns {len(got)} of {len(data[q[2]])} values; "
                             f"first difference: {miss[0] if miss else [v for v in got if v not in data[q[2]]][:1]}")
         return None
+
+    def extra_checks(self, rep, tier, rng, workdir):
+        byte_level_check(self, rep, workdir)
 
     def known_match(self, finding, case, reason):
         if finding.get("id") == "D5-wig-zero-length-at-chromosome-ends":
